@@ -135,7 +135,7 @@ for fn, nm, path, sym in WCOPYFAM:
         J('B.%s.L%d.n3' % (nm, lay), COPY_PROPS, 'B', 'harness/copyfam.c', sources=[path] + WCS_COMMON,
           defines=['FN=%d' % fn, 'N=3', 'WIDE', 'LAYOUT=%d' % lay], unwind=10, object_bits=10, replay=True,
           functions=[sym], bound='extents <= 3 wide chars, arena <= 8, layout %d' % lay,
-          stubs=['stubs/memset_model.c'], timeout=3000, mem_gb=10, tiers=('thorough',))
+          stubs=['stubs/memset_model.c'], timeout=3000, mem_gb=10, tiers=('thorough',), thorough_props=['C03', 'C06', 'C07', 'C08'])
 
 # ---- the same family on the far side of the `dmax > 0x20` slack-nulling switch (memset instead of the loop)
 SLACK_PROPS = ['C08', 'C01', 'C03', 'C04', 'C06', 'C05']
@@ -162,7 +162,7 @@ for fam, wide in ((COPYFAM, False), (WCOPYFAM, True)):
               sources=[path] + (WCS_COMMON if wide else STR_COMMON),
               defines=['FN=%d' % fn, 'SL=%d' % sl] + (['WIDE'] if wide else []), variants=slack_variants(sym, long, wide, sl), unwind=52, replay=True,
               functions=[sym], stubs=['stubs/memset_model.c'], timeout=1800, mem_gb=(16 if heavy else 8),
-              quick_props=['C08', 'C01', 'C04'], tiers=(('dev',) if toobig else ('thorough',) if heavy else ('quick', 'thorough')),
+              quick_props=['C08', 'C01', 'C04'], thorough_props=(['C04', 'C08'] if heavy else None), tiers=(('dev',) if toobig else ('thorough',) if heavy else ('quick', 'thorough')),
               cbmc_flags=['--max-field-sensitivity-array-size', '100'],
               bound='dest of %d elements, dmax %d..%d (beyond the 0x20 switch), %s, dest below / above src at fixed offsets; all contents symbolic'
                     % (0x20 + 2 * sl + 4, 0x20 + 2 * sl + 2, 0x20 + 2 * sl + 4,
@@ -324,7 +324,7 @@ for nm, path, wide in (('strtok_s', 'src/str/strtok_s.c', False), ('wcstok_s', '
       bound='strings of at most 4 elements, two delimiter sets of <= 2 characters chosen per call, 5 calls')
     J('B.%s.seq5' % nm, ['C14', 'C01', 'C02', 'C05'], 'B', 'harness/tokfam.c', sources=[path] + WCS_COMMON,
       defines=['N=4', 'DL=2'] + (['WIDE'] if wide else []), unwind=9, object_bits=10, replay=True,
-      functions=['_%s_chk' % nm], timeout=3000, tiers=('thorough',), mem_gb=(16 if wide else 6),
+      functions=['_%s_chk' % nm], timeout=3000, tiers=('thorough',), mem_gb=(16 if wide else 6), thorough_props=['C14', 'C02'],
       bound='strings of at most 5 elements, two delimiter sets of <= 2 characters chosen per call, 7 calls')
     J('B.%s.delim16' % nm, ['C14', 'C02'], 'B', 'harness/tokfam.c', sources=[path] + WCS_COMMON,
       defines=['N=2', 'DL=16', 'K=1'] + (['WIDE'] if wide else []), unwind=20, object_bits=10, replay=True, quick_props=['C14'],
@@ -332,7 +332,7 @@ for nm, path, wide in (('strtok_s', 'src/str/strtok_s.c', False), ('wcstok_s', '
       bound='strings of at most 3 elements, delimiter sets of up to 16 characters (exactly the STRTOK_DELIM_MAX_LEN limit), 1 call')
     J('B.%s.delim17' % nm, ['C14', 'C02'], 'B', 'harness/tokfam.c', sources=[path] + WCS_COMMON,
       defines=['N=1', 'DL=17', 'K=2'] + (['WIDE'] if wide else []), unwind=21, object_bits=10, replay=True,
-      functions=['_%s_chk' % nm], timeout=3000, tiers=('thorough',), mem_gb=(16 if wide else 6),
+      functions=['_%s_chk' % nm], timeout=3000, tiers=('thorough',), mem_gb=(16 if wide else 6), thorough_props=['C14', 'C02'],
       bound='strings of at most 2 elements, delimiter sets of up to 17 characters (the STRTOK_DELIM_MAX_LEN limit), 2 calls')
 
 # ---- C16: qsort_s / bsearch_s
